@@ -71,7 +71,7 @@ class TwoRateTokenBucket(Device):
             )
 
             if self.pir:
-                assert self.pbs
+                assert self.pbs is not None
                 self.current_bucket_peak = min(
                     self.pbs,
                     self.current_bucket_peak
